@@ -236,6 +236,21 @@ func (d *drv) random(t int, rnd *rand.Rand, tier string) {
 	d.lookupAll(101)
 }
 
+// guard runs one trace; a panic of the real code ends the trace with a "panic" event, which the trace
+// specification never accepts
+func (d *drv) guard(f func()) {
+	defer func() {
+		if r := recover(); r != nil {
+			msg := fmt.Sprint(r)
+			if len(msg) > 120 {
+				msg = msg[:120]
+			}
+			d.log.Emit("panic", jc{"what": msg})
+		}
+	}()
+	f()
+}
+
 func main() {
 	env := tracelog.GetEnv()
 	lg, err := tracelog.Open(env.OutPath)
@@ -252,11 +267,11 @@ func main() {
 	t := 0
 	for _, b := range behs {
 		t++
-		d.replay(t, b)
+		d.guard(func() { d.replay(t, b) })
 	}
 	for i := 0; i < env.N; i++ {
 		t++
-		d.random(t, rand.New(rand.NewSource(env.Seed*1000003+int64(i))), env.Tier)
+		d.guard(func() { d.random(t, rand.New(rand.NewSource(env.Seed*1000003+int64(i))), env.Tier) })
 	}
 	if err := lg.Close(); err != nil {
 		fmt.Fprintln(os.Stderr, err)
